@@ -243,8 +243,17 @@ def probe_all_codes(ctx: Ctx, ev: Evidence) -> list[Finding]:
                 prog0 = h.read_term(st, "_params.fp.progress")
                 ex: list = []
                 res = h.ip.call_repo(fi, h.self_ref, [cond], {}, st, ex, "<probe>")
-                for _v, s2 in list(res) + [(None, s) for _x, s in ex]:
+                for _v, s2 in list(res) + [(x_, s) for x_, s in ex]:
                     code = s2.mon.get("o:" + repr(("fh", repr(cond))))
+                    if _v is not None and getattr(_v, "cls", None) and getattr(_v, "origin", "env") != "env" and not any(x.kind == "env" and x.name.startswith("fault.") for x in s2.ev):
+                        # the helper itself fails before the user's fault callback is invoked: the declared fault is lost
+                        k = f"{which} handler | code {ename(code)}: {_v.cls} raised before the fault callback"
+                        if k not in seen:
+                            seen.add(k)
+                            ev.inst("C14-R5", k, "violation", _v.site)
+                            out.append(Finding("C14-R5", f"{which} handler | {_v.cls} before the callback under code {ename(code)}",
+                                               f"with handler code {ename(code)} the fault-declaration helper raises {_v.cls} ({_v.detail}) before the fault callback is invoked", _v.site))
+                        continue
                     for x in s2.ev:
                         if x.kind == "env" and x.name.startswith("fault."):
                             ok = x.args[0] == tid0 and x.args[0] is not None and (x.args[2] == prog0 or code is None)
